@@ -222,7 +222,7 @@ int main(int argc, char **argv)
     for (int li = 0; li < 2; li++) {
         LEVEL = levels[li];
         static char name[2][40]; snprintf(name[li], sizeof name[li], "memtrack_build%d_level%d", TRACKED ? 5 : 4, LEVEL);
-        mc_sys sys = { name[li], NOPS, op_name, fresh, enabled, apply, NULL, canon, teardown };
+        mc_sys sys = { name[li], NOPS, op_name, fresh, enabled, apply, NULL, canon, teardown, (int) mc_arg_int("lookahead", 1) };
         mc_e1_run(&sys, (int) mc_arg_int("depth", 40));
     }
     libast_debug_level = 0;
